@@ -335,3 +335,37 @@ Section XOF.
     apply H. unfold prf_scalar. apply nth_In. rewrite prf_list_length. lia.
   Qed.
 End XOF.
+
+(* ------------------------------------------------------------------------------------ *)
+(** * Statelessness.  A PRF object is modelled by (xof-per-input, keylen, bound) only: a call is the
+      function [prf_list (xofs s) keylen bound n] of (key, bound, s, n).  A history of calls on one
+      object is therefore just the map of that function over the calls, and the result of a call
+      cannot depend on the calls made before it.  Any dependence of the implementation's result on
+      the call history (caches, counters) is a correspondence break, which the check searches for
+      with stateful call sequences on one long-lived object. *)
+Section History.
+  Variable S : Type.                        (* inputs s *)
+  Variable xofs : S -> nat -> list Z.       (* SHAKE-128 output of key + s, per input *)
+  Variables keylen bound : Z.
+
+  Definition prf_history (calls : list (S * nat)) : list (list Z) :=
+    map (fun c => prf_list (xofs (fst c)) keylen bound (snd c)) calls.
+
+  Theorem prf_history_independent (h1 h2 : list (S * nat)) (s : S) (n : nat) :
+    last (prf_history (h1 ++ [(s, n)])) [] = prf_list (xofs s) keylen bound n /\
+    last (prf_history (h1 ++ [(s, n)])) [] = last (prf_history (h2 ++ [(s, n)])) [].
+  Proof.
+    unfold prf_history. rewrite !map_app. simpl. rewrite !last_last. split; reflexivity.
+  Qed.
+
+  (** all results for one input, whatever the order of the calls, are prefixes of one stream *)
+  Theorem prf_history_prefix_family (h : list (S * nat)) (s : S) (n n' i : nat) :
+    (forall a b, (a <= b)%nat -> firstn a (xofs s b) = xofs s a) ->
+    In (s, n) h -> In (s, n') h -> (i < n)%nat -> (i < n')%nat ->
+    nth i (prf_list (xofs s) keylen bound n) 0 = nth i (prf_list (xofs s) keylen bound n') 0.
+  Proof.
+    intros P _ _ Hi Hi'. destruct (Nat.le_ge_cases n n') as [L|L].
+    - apply prf_prefix_consistent; assumption.
+    - symmetry. apply prf_prefix_consistent; assumption.
+  Qed.
+End History.
